@@ -26,6 +26,8 @@ From RV Require Import Model.FilterWire.
 From RV Require Import Proofs.FilterWire.
 From RV Require Import Proofs.PixelConvolve.
 From RV Require Import Proofs.PixelChain.
+From RV Require Import Proofs.PixelIdentity2.
+From RV Require Import Proofs.PixelChainId.
 From Flocq Require Import Core BinarySingleNaN.
 Local Open Scope Z_scope.
 
@@ -171,6 +173,37 @@ Theorem C16_merge_single_id : forall p, merge_single p = p.
 Proof. exact merge_single_id. Qed.
 Print Assumptions C16_merge_single_id.
 
+(* second pass: saturate(1) and hueRotate(0).  The nine source-derived coefficient expressions evaluate in binary32 to exactly
+   the identity rows (hueRotate: with cos 0 = 1, sin 0 = 0 from libm), and the rows give back every byte *)
+Theorem C16_saturate1_hue0_coefs : cm_saturate_coefs (fmax0 f1) = idm3 /\ cm_hue_coefs f1 fzero = idm3.
+Proof. exact (conj saturate1_coefs hue0_coefs). Qed.
+Print Assumptions C16_saturate1_hue0_coefs.
+
+Theorem C16_identity_saturate1 : forall p, byte_px p -> valid_px p -> px_color_matrix (CMSaturate f1) p = p.
+Proof. exact color_matrix_saturate1. Qed.
+Print Assumptions C16_identity_saturate1.
+
+Theorem C16_identity_hue0 : forall p, byte_px p -> valid_px p -> px_color_matrix (CMHueRotate f1 fzero) p = p.
+Proof. exact color_matrix_hue0. Qed.
+Print Assumptions C16_identity_hue0.
+
+(* feBlend normal / feComposite over / feMerge onto a transparent backdrop *)
+Theorem C16_over_transparent_id : forall p, over_px p px0 = p.
+Proof. exact over_px0. Qed.
+Print Assumptions C16_over_transparent_id.
+
+(* IDENTITY CHAINS of any length and wiring, all primitives computing in colour space c: exactly the source for sRGB, exactly one
+   round trip through the real lookup tables for linearRGB (bounded by the C16_lut_roundtrip theorems), never an accumulation *)
+Theorem C16_identity_chain : forall c ps src, byte_px src -> valid_px src -> Forall (identity_prim c) ps -> ps <> [] ->
+  run_filter ps src = src \/ (c = CsLinear /\ run_filter ps src = px_into_srgb (px_into_linear src)).
+Proof. exact identity_chain. Qed.
+Print Assumptions C16_identity_chain.
+
+Theorem C16_identity_chain_noop : forall ps src, byte_px src -> valid_px src -> Forall (identity_prim CsSRGB) ps -> ps <> [] ->
+  run_filter ps src = src.
+Proof. exact identity_chain_noop. Qed.
+Print Assumptions C16_identity_chain_noop.
+
 (* ================================================================== wiring of named results (model validated by the `wire` correspondence) *)
 Theorem C16_reference_is_last_result : forall results name v,
   find_last (results ++ [(name, v)]) name None = Some v /\
@@ -272,3 +305,26 @@ Example C16_ex_layer :
   filter_layer {| rx := 3 # 2; ry := 2 # 1; rw := 5 # 2; rh := 1 # 1 |} {| ix := -10; iy := -10; iw := 50; ih := 50 |}
   = Some {| ix := 1; iy := 2; iw := 3; ih := 1 |}.
 Proof. vm_compute. reflexivity. Qed.
+(* a chain that meets identity_prim: every kind, a shadowed name, an unknown reference *)
+Example C16_ex_identity_chain :
+  Forall (identity_prim CsSRGB)
+    [ {| w_kind := WColorMatrix (CMSaturate f1) WSource; w_cs := CsSRGB; w_name := 1%N |};
+      {| w_kind := WOffset0 (WRef 1%N); w_cs := CsLinear; w_name := 1%N |};
+      {| w_kind := WColorMatrix (CMHueRotate f1 fzero) (WRef 9%N); w_cs := CsSRGB; w_name := 2%N |};
+      {| w_kind := WTransfer [TFLinear f1 fzero; TFTable [fzero; f1]; TFIdentity; TFIdentity] (WRef 1%N); w_cs := CsSRGB; w_name := 3%N |};
+      {| w_kind := WMerge [WRef 3%N]; w_cs := CsSRGB; w_name := 4%N |} ].
+Proof.
+  assert (F : id_fs [TFLinear f1 fzero; TFTable [fzero; f1]; TFIdentity; TFIdentity]).
+  { intro j. unfold nthZ. destruct (Z.to_nat j) as [|[|[|[|n]]]]; cbn [nth].
+    - right. exact tf_linear_id.
+    - right. exact tf_table01_id.
+    - left. reflexivity.
+    - left. reflexivity.
+    - left. destruct n; reflexivity. }
+  repeat (apply Forall_cons); try apply Forall_nil; unfold identity_prim; cbn [w_kind w_cs].
+  - split; [right; left; reflexivity|split; [exact I|reflexivity]].
+  - exact I.
+  - split; [right; right; reflexivity|split; [exact I|reflexivity]].
+  - split; [exact F|split; [exact I|reflexivity]].
+  - split; [exact I|reflexivity].
+Qed.
